@@ -50,16 +50,18 @@ Theorem C08_estimate_is_sufficient : forall ex gas_cap args_gas max_gas g,
 Proof. exact estimate_is_sufficient. Qed.
 Print Assumptions C08_estimate_is_sufficient.
 
-(* the fuel of the model is not what makes the previous theorem true *)
+(* the fuel of the model is not what makes the previous theorem true: for EVERY uint64 cap the search ends within 65
+   probes (since /repo 81e4910 the midpoint is lo + (hi-lo)/2; before, hi+lo wrapped around for caps above 2^63 and
+   the search could cycle: C08_wrapping_midpoint_search_cycles) *)
 Theorem C08_estimate_never_out_of_fuel : forall ex gas_cap args_gas max_gas,
-  2 * est_hi gas_cap args_gas max_gas <= U64 ->
+  est_hi gas_cap args_gas max_gas < U64 ->
   estimate_gas ex gas_cap args_gas max_gas <> EstFuel.
 Proof. exact estimate_never_out_of_fuel. Qed.
 Print Assumptions C08_estimate_never_out_of_fuel.
 
 (* for a monotone executable the search returns the threshold itself *)
 Theorem C08_bin_search_exact_if_monotone : forall fuel ex lo hi T h,
-  (forall g, ex g = if g <? T then ExOOG else ExOk) -> 2 * hi <= U64 ->
+  (forall g, ex g = if g <? T then ExOOG else ExOk) -> hi < U64 ->
   lo < T -> T <= hi -> bin_search fuel ex lo hi = BHi h -> h = T.
 Proof. exact bin_search_monotone. Qed.
 Print Assumptions C08_bin_search_exact_if_monotone.
@@ -67,7 +69,7 @@ Print Assumptions C08_bin_search_exact_if_monotone.
 (* no false "gas required exceeds allowance": when the call succeeds with the highest gas limit that may be
    tried (and no probe is a consensus error) an estimate is returned, within (20999, cap] *)
 Theorem C08_estimate_complete : forall ex gas_cap args_gas max_gas,
-  TxGas <= gas_cap -> 2 * est_hi gas_cap args_gas max_gas <= U64 ->
+  TxGas <= gas_cap -> est_hi gas_cap args_gas max_gas < U64 ->
   (forall g, ex g <> ExErr) -> ex (est_hi gas_cap args_gas max_gas) = ExOk ->
   exists g, estimate_gas ex gas_cap args_gas max_gas = EstOk g /\ g <= est_hi gas_cap args_gas max_gas /\
             (TxGas <= est_hi gas_cap args_gas max_gas -> TxGas <= g).
@@ -76,7 +78,7 @@ Print Assumptions C08_estimate_complete.
 
 (* an estimate never exceeds the highest gas limit that may be tried, which never exceeds the node's gas cap *)
 Theorem C08_estimate_le_cap : forall ex gas_cap args_gas max_gas g,
-  2 * est_hi gas_cap args_gas max_gas <= U64 ->
+  est_hi gas_cap args_gas max_gas < U64 ->
   estimate_gas ex gas_cap args_gas max_gas = EstOk g -> g <= est_hi gas_cap args_gas max_gas.
 Proof. exact estimate_le_cap. Qed.
 Print Assumptions C08_estimate_le_cap.
@@ -137,8 +139,9 @@ Example C08_example :
   estimate_gas (fun _ => ExRevert) 100000 (Some 50000) 0 = EstVmError /\
   estimate_gas (fun g => if g <? 60000 then ExErr else ExOk) 100000 None 0 = EstBail /\
   estimate_gas ex_nonmono 20999 None 0 = EstInvalidArg /\
-  (* uint64 wrap-around of hi+lo for a cap near 2^64: still a tested success *)
-  estimate_gas (fun _ => ExOk) 18446744073709551615 None 0 = EstOk 10499.
+  (* a cap near 2^64: no wrap-around, the search comes down to the lowest gas limit *)
+  estimate_gas (fun _ => ExOk) 18446744073709551615 None 0 = EstOk 21000 /\
+  estimate_gas (fun _ => ExOOG) 18446744073709551615 None 0 = EstAllowance.
 Proof.
   split; [repeat (constructor; intros)|]. vm_compute. repeat split; reflexivity.
 Qed.
@@ -152,21 +155,30 @@ Example C08_example_history :
   h_answers (run_hist (fun _ => None) ex_hist) = [(Some 20, 7); (Some 20, 7); (Some 10, 0); (Some 11, 2)] /\
   h_delivered (run_hist (fun _ => None) ex_hist) = [(Some 20, 7); (Some 11, 1)] /\
   h_state (run_hist (fun _ => None) ex_hist) 1 = Some 11 /\
-  TxGas <= 100000 /\ 2 * est_hi 100000 None 0 <= U64 /\ (forall g, ex_nonmono g <> ExErr) /\ ex_nonmono (est_hi 100000 None 0) = ExOk.
+  TxGas <= 100000 /\ est_hi 100000 None 0 < U64 /\ (forall g, ex_nonmono g <> ExErr) /\ ex_nonmono (est_hi 100000 None 0) = ExOk.
 Proof.
   split; [repeat constructor; repeat (constructor; intros)|].
   repeat split; try (vm_compute; congruence).
   intros g. unfold ex_nonmono. destruct ((55000 <=? g) && (g <? 62000)); [discriminate|]. destruct (90000 <=? g); discriminate.
 Qed.
 
-(* the bound on the cap in C08_estimate_never_out_of_fuel is needed: with a cap of 2^64-1 (hi+lo wraps around
-   uint64) and a call that fails with every gas limit, lo is driven down to 0 and up again for ever; the Go loop
-   does the same.  The gas cap is node configuration (default 25,000,000) and a request cannot raise it
-   (C08_est_hi_le_gas_cap), so this is not reachable by a request *)
-Example C08_example_wraparound_search_cycles :
-  bin_search 5000 (fun _ => ExOOG) (TxGas - 1) 18446744073709551615 = BFuel /\
-  In 0 (map (fun g => g / 2) (bin_probes 200 (fun _ => ExOOG) (TxGas - 1) 18446744073709551615)).
-Proof. vm_compute. split; [reflexivity|]. tauto. Qed.
+(* what /repo 81e4910 repaired (signature C08/query/binsearch/midpoint-wraps): with the midpoint (hi + lo) / 2 in uint64
+   arithmetic, a cap of 2^64-1 and a call that fails with every gas limit, hi+lo wraps around, lo is driven down to 0
+   and up again for ever -- the model of the old loop runs out of any fuel and probes gas limits below lo; the
+   repaired search on the same input ends after 64 probes with the "allowance" answer *)
+Theorem C08_wrapping_midpoint_search_cycles :
+  bin_search_wrapping 5000 (fun _ => ExOOG) (TxGas - 1) 18446744073709551615 = BFuel /\
+  In 0 (map (fun g => g / 2) (bin_probes_wrapping 200 (fun _ => ExOOG) (TxGas - 1) 18446744073709551615)) /\
+  bin_search est_fuel (fun _ => ExOOG) (TxGas - 1) 18446744073709551615 = BHi 18446744073709551615 /\
+  length (bin_probes est_fuel (fun _ => ExOOG) (TxGas - 1) 18446744073709551615) = 64%nat.
+Proof. vm_compute. split; [reflexivity|]. split; [tauto|]. split; reflexivity. Qed.
+Print Assumptions C08_wrapping_midpoint_search_cycles.
+
+(* the repaired midpoint is the plain one, strictly between the bounds, for all uint64 bounds *)
+Theorem C08_midpoint_does_not_wrap : forall lo hi, lo + 1 < hi -> hi < U64 ->
+  mid64 lo hi = lo + (hi - lo) / 2 /\ lo < mid64 lo hi < hi.
+Proof. intros lo hi Hl Hh. split; [apply mid64_eq|apply mid64_between]; assumption. Qed.
+Print Assumptions C08_midpoint_does_not_wrap.
 
 (* ---------------------------------------------------------------------------------------------------------------
    Tracing a transaction of a block (TraceTx with predecessors, TraceBlock) predicts what the block did.
